@@ -978,6 +978,22 @@ func runC02(c *Ctx) {
 		}
 		for _, in := range findU(f, isRefresh) {
 			o.Site(in.Pos(), "store to expires in %s", fname(f))
+			if fromIn[f] && in.Parent() != f {
+				// a lookup helper shared with the outbound side and switched by a constant argument (refresh bool):
+				// the store counts only if some path of this function, with that argument, executes it
+				if ps, okP := enumIterPathsU(f, 20000); okP {
+					onPath := false
+					for pi := range ps {
+						if ps[pi].indexOf(in) >= 0 {
+							onPath = true
+							break
+						}
+					}
+					if !onPath {
+						continue
+					}
+				}
+			}
 			if fromIn[f] {
 				o.Fail(in.Pos(), "mapping.expires is written in %s, which is reachable from the inbound translation: inbound traffic alone prolongs a mapping", fname(f))
 			}
